@@ -23,7 +23,8 @@ CLAIMS = {
              note=SEQ_NOTE + ' Concurrency: sequentially consistent atomics; rely = other threads meet the same guarantee (DESIGN.md 4.3, paper argument); retry loops modelled with one interference '
                   'between load and CAS; multi-huge-frame CAS and the counter protocol of Lower::get/put are covered sequentially only.'),
     'C03': P('For the bit-level functions every free of a held block returns Ok and no call panics (undo expect()s included) under the rely/guarantee environment: any number of '
-             'threads, any schedule. The allocator-level panics and the counter/marker protocol of the lower level are covered sequentially only (C09).', 'DESIGN.md 4, 6 C03',
+             'threads, any schedule. One level up, Locals::drain/get/put/swap conserve frames (no reservation lost) and do not panic with any interference on the slot words (slot-word environment). '
+             'The tree counters and the LLFree paths are covered sequentially only (C09).', 'DESIGN.md 0, 4, 6 C03',
              note=SEQ_NOTE + ' Concurrency scope: Bitfield::toggle / set_first_zeros / set_first_zero_rows only; partial_put_huge spin-wait (panic "Exceeding retries" when a peer stalls) is NOT covered.'),
     'C02': P('The ownership-model clauses of the statement are the postconditions of Lower::put/get/get_at (all bit states of a tree, every order) and of LLFree::put/get (all '
              'counter states under invariant I); initialisation establishes the invariants (C06 obligations), every operation preserves them, so they hold after every history.', 'DESIGN.md 6 C02'),
